@@ -10,10 +10,11 @@
    operations: logins, registrations succeeding or failing at any step, closes, session ends, work
    connections, foreign processes binding ports) without load-balancing groups, from the initial state.
    [fp s n] = the set of resource atoms recorded under proxy name n in any table of s.
-   The grouped paths (tcp / http / tcpmux groups) are modelled and compared with the code on every
-   run (Corr/C10.v) but are outside these theorems: see design/C10.md. *)
+   The grouped paths (tcp / http / tcpmux groups) have their own theorems below (the C10_grouped_ family), stated for
+   states reachable by ANY history; the invariant-based theorems above are for group-free histories. *)
 From FRP Require Import Model.SrvRes Model.ConnWrap Proofs.PortsProofs Proofs.SrvResBase Proofs.SrvResProofs Proofs.SrvResThms
-  Proofs.ConnWrapProofs Model.StackTypes Model.ConnWrapSites Proofs.ConnWrapSitesProofs gen.GenStacks.
+  Proofs.ConnWrapProofs Model.StackTypes Model.ConnWrapSites Proofs.ConnWrapSitesProofs gen.GenStacks
+  Model.UdpLoop Proofs.UdpLoopProofs Proofs.SrvResGroups.
 Open Scope Z_scope.
 
 (* "all histories" is literally a fold_left of the step function *)
@@ -149,6 +150,101 @@ Theorem C10_others_untouched_by_registration : forall ranges maxp maxpool s c q 
 Proof. exact others_untouched_by_registration. Qed.
 Print Assumptions C10_others_untouched_by_registration.
 
+(* ---------- load-balancing groups (tcp / http / tcpmux) ----------
+   [any_reach] = reachable by ANY history, grouped requests included.  The statements are about the group
+   operations the grouped proxies' Run / Close consist of (grp_join = XxxGroupCtl.Listen / Register,
+   grp_leave = CloseListener / UnRegister); [live_group s id] = the group id if it has members (an empty
+   group object left by a refused first join, F-C10c, is not a live group: declared memory). *)
+Definition any_reach (ranges : list prange) (maxp maxpool : Z) (s : sr) : Prop :=
+  exists ops, sr_run maxp maxpool ops (sr_new ranges) = Some s.
+
+Theorem C10_ports_partition_on_every_history : forall ranges maxp maxpool s,
+  any_reach ranges maxp maxpool s -> PInv (pm_allowed ranges) (sr_tcp s) /\ PInv (pm_allowed ranges) (sr_udp s).
+Proof. intros ranges maxp maxpool s [ops H]. exact (ports_partition_on_every_history ranges maxp maxpool ops s H). Qed.
+Print Assumptions C10_ports_partition_on_every_history.
+
+(* a refused join, for whatever reason, changes no keyed table, no used port, no live group and no member
+   list; at most an empty group object appears *)
+Theorem C10_grouped_refused_join_changes_nothing : forall ranges maxp maxpool s j s' e,
+  any_reach ranges maxp maxpool s -> grp_join s j = Some (s', inr e) -> refused_post (pm_allowed ranges) s j s'.
+Proof.
+  intros ranges maxp maxpool s j s' e [ops H] J.
+  exact (refused_join_changes_nothing _ s j s' e (proj1 (ports_partition_on_every_history ranges maxp maxpool ops s H)) (allowed_no0 ranges) J).
+Qed.
+Print Assumptions C10_grouped_refused_join_changes_nothing.
+
+(* the last member leaves: group gone, shared socket + port (or route) released, nothing else touched *)
+Theorem C10_grouped_last_leave_releases : forall ranges maxp maxpool s id n g,
+  any_reach ranges maxp maxpool s -> grp_get id (sr_grp s) = Some g -> str_rem1 n (g_mem g) = [] ->
+  let s' := grp_leave s id n in
+  grp_get id (sr_grp s') = None /\ al_get slot_eqb (g_slot g) (sr_res s') = None /\
+  (forall p, g_slot g = SSock 0 p -> uget p (pm_used (sr_tcp s')) = None /\ In p (pm_free (sr_tcp s')) \/ uget p (pm_used (sr_tcp s)) = None) /\
+  (forall k, k <> g_slot g -> al_get slot_eqb k (sr_res s') = al_get slot_eqb k (sr_res s)) /\
+  (forall id0, id0 <> id -> grp_get id0 (sr_grp s') = grp_get id0 (sr_grp s)) /\
+  sr_names s' = sr_names s /\ sr_sess s' = sr_sess s /\ PInv (pm_allowed ranges) (sr_tcp s') /\ PInv (pm_allowed ranges) (sr_udp s').
+Proof.
+  intros ranges maxp maxpool s id n g [ops H] GG RM.
+  destruct (ports_partition_on_every_history ranges maxp maxpool ops s H) as [Pt Pu].
+  exact (last_leave_releases _ s id n g Pt Pu GG RM).
+Qed.
+Print Assumptions C10_grouped_last_leave_releases.
+
+Theorem C10_grouped_leave_keeps_the_group_for_the_others : forall s id n g m r,
+  grp_get id (sr_grp s) = Some g -> str_rem1 n (g_mem g) = m :: r ->
+  let s' := grp_leave s id n in
+  grp_get id (sr_grp s') = Some (g_with_mem g (m :: r)) /\ sr_res s' = sr_res s /\ sr_tcp s' = sr_tcp s /\ sr_udp s' = sr_udp s /\
+  sr_names s' = sr_names s /\ sr_sess s' = sr_sess s /\
+  (forall id0, id0 <> id -> grp_get id0 (sr_grp s') = grp_get id0 (sr_grp s)).
+Proof. exact leave_keeps_the_group_for_the_others. Qed.
+Print Assumptions C10_grouped_leave_keeps_the_group_for_the_others.
+
+(* join, then leave: keyed tables equal, port manager equal up to the declared memories, every live group
+   as before (first member of a new group, or one more member of an existing one) *)
+Theorem C10_grouped_join_then_leave_restores : forall ranges maxp maxpool s j s1 rp,
+  any_reach ranges maxp maxpool s -> slot_ok j -> grp_join s j = Some (s1, inl rp) ->
+  (forall g, live_group s (j_gid j) = Some g -> str_mem (j_name j) (g_mem g) = false) ->
+  grp_eqv s (grp_leave s1 (j_gid j) (j_name j)).
+Proof.
+  intros ranges maxp maxpool s j s1 rp [ops H] SK J NM.
+  exact (join_then_leave_restores _ s j s1 rp (proj1 (ports_partition_on_every_history ranges maxp maxpool ops s H)) (allowed_no0 ranges) SK J NM).
+Qed.
+Print Assumptions C10_grouped_join_then_leave_restores.
+
+(* reregister_after_stop_succeeds for grouped proxies: join, leave, the identical join succeeds *)
+Theorem C10_grouped_reregister_after_stop_succeeds : forall ranges maxp maxpool s j s1 rp,
+  any_reach ranges maxp maxpool s -> slot_ok j -> (fst (j_gid j) = GTcp -> j_port j <> 0) ->
+  (forall g, live_group s (j_gid j) = Some g -> str_mem (j_name j) (g_mem g) = false) ->
+  grp_join s j = Some (s1, inl rp) ->
+  exists s3 rp', grp_join (grp_leave s1 (j_gid j) (j_name j)) j = Some (s3, inl rp').
+Proof.
+  intros ranges maxp maxpool s j s1 rp [ops H] SK NP NM J.
+  exact (grouped_rejoin_after_leave _ s j s1 rp (proj1 (ports_partition_on_every_history ranges maxp maxpool ops s H)) (allowed_no0 ranges) SK NP NM J).
+Qed.
+Print Assumptions C10_grouped_reregister_after_stop_succeeds.
+
+(* a refused join leaves nothing behind that could make a later join fail *)
+Theorem C10_grouped_join_after_refused_join : forall ranges maxp maxpool s j s' e j' s1 rp,
+  any_reach ranges maxp maxpool s -> grp_join s j = Some (s', inr e) ->
+  (fst (j_gid j') = GTcp -> j_port j' <> 0) ->
+  grp_join s j' = Some (s1, inl rp) -> exists s3 rp', grp_join s' j' = Some (s3, inl rp').
+Proof.
+  intros ranges maxp maxpool s j s' e j' s1 rp [ops H] J NP J'.
+  exact (join_after_refused_join _ s j s' e j' s1 rp (proj1 (ports_partition_on_every_history ranges maxp maxpool ops s H)) (allowed_no0 ranges) J NP J').
+Qed.
+Print Assumptions C10_grouped_join_after_refused_join.
+
+(* the same at the level of TCPProxy.Run / Close for a grouped tcp proxy *)
+Theorem C10_grouped_tcp_run_close_run : forall ranges maxp maxpool s q s1 o,
+  any_reach ranges maxp maxpool s -> q_type q = TTcp -> q_group q <> ""%string -> q_port q <> 0 ->
+  (forall g, live_group s (GTcp, q_group q) = Some g -> str_mem (q_name q) (g_mem g) = false) ->
+  px_run s q = Some (s1, inl o) ->
+  grp_eqv s (px_close s1 o) /\ exists s3 o', px_run (px_close s1 o) q = Some (s3, inl o').
+Proof.
+  intros ranges maxp maxpool s q s1 o [ops H] T G NP NM R.
+  exact (grouped_tcp_run_close_run _ s q s1 o (proj1 (ports_partition_on_every_history ranges maxp maxpool ops s H)) (allowed_no0 ranges) T G NP NM R).
+Qed.
+Print Assumptions C10_grouped_tcp_run_close_run.
+
 (* cycles_do_not_grow: whatever happened before — any number of register/stop cycles, failures, session
    ends — once no proxy is registered every resource table is EMPTY (so its size after n cycles equals
    its size after one, namely 0), only the session table keeps the live sessions *)
@@ -207,6 +303,37 @@ Theorem C10_every_source_site_closes_its_transport :
                             cw_base_closes st2 = 2 /\ cw_flags st2 = [])).
 Proof. exact (cw_sites_ok_sound stack_sites (eq_refl true)). Qed.
 Print Assumptions C10_every_source_site_closes_its_transport.
+
+(* UDPProxy.Close against the goroutines of UDPProxy.Run (Model/UdpLoop.v; repaired F-C10d), for EVERY
+   schedule of loop / readers / the two halves of Close / peers closing connections and every outcome of
+   GetWorkConnFromPool: once Close has returned and the loop has ended no connection the proxy was ever
+   given is open; after the first half of Close the loop's next step is its last; a connection fetched
+   while the proxy was being closed is closed on the spot *)
+Theorem C10_udp_close_leaves_no_connection_open : forall sched,
+  let s := urun true sched u_init in
+  u_close s = CDone -> u_loop s = LDone -> u_open s = [].
+Proof. exact udp_close_leaves_no_connection_open. Qed.
+Print Assumptions C10_udp_close_leaves_no_connection_open.
+
+Theorem C10_udp_loop_ends_after_close : forall sched,
+  let s := urun true sched u_init in
+  u_close s <> CIdle -> u_loop s <> LDone -> exists a, u_loop (ustep true s a) = LDone.
+Proof. exact udp_loop_ends_after_close. Qed.
+Print Assumptions C10_udp_loop_ends_after_close.
+
+Theorem C10_udp_fetched_during_close_is_closed : forall sched c,
+  let s := urun true sched u_init in
+  u_loop s = LGot c -> u_close s <> CIdle -> ~ In c (u_open (ustep true s AStore)) /\ u_loop (ustep true s AStore) = LDone.
+Proof. exact udp_fetched_during_close_is_closed. Qed.
+Print Assumptions C10_udp_fetched_during_close_is_closed.
+
+(* the Close order before the repair: the schedule of F-C10d (driver udprace replays it on the real server)
+   leaves a connection open although Close has returned and the loop has ended *)
+Theorem C10_udp_old_close_order_refuted :
+  let s := urun false u_witness u_init in
+  u_close s = CDone /\ u_loop s = LDone /\ u_open s = [1%nat].
+Proof. exact udp_old_close_order_refuted. Qed.
+Print Assumptions C10_udp_old_close_order_refuted.
 
 (* the shapes before the two repairs never reached the transport (what regress/revert_8f52e6b and
    revert_ff68771 restore) *)
